@@ -61,6 +61,11 @@ finding(
     {"C01": [I([["a", {"typ": "int", "doc": " ".join(["alpha beta gamma delta"] * 6)}]], cells=[["numpydoc", True, False, True, True]])]},
 )
 
+finding(
+    "P44", ["C06"], "fixed", "json_schema emit raises AttributeError for a single-member Literal['x']", "f2a67e1",
+    {"C06": [I([["q", {"typ": "Literal['aqaaw']", "doc": "alpha."}]])]},
+)
+
 # ------------------------------------------------------------------ open
 finding("P9", ["C12"], "open", "sync leaves function and argparse targets that differ from the truth untouched ('unchanged'); Class.method targets get a new top-level def appended on every run; a missing function file raises TypeError (repair would break 4 pinned test_conformance tests)")
 finding("P12", ["C01"], "open", "string default '' is emitted as 'Defaults to' and lost; string defaults containing '.' are truncated")
@@ -123,6 +128,14 @@ W.append(("P13", "C03", I([A], seqs=[["argparse"]])))
 W.append(("P14", "C03", I([A], seqs=[["function", "class"]])))
 W.append(("P6", "C03", I([["a", {"typ": "int", "doc": "the a", "default": -5}]], seqs=[["doc_rest"], ["class", "doc_rest", "function"]])))
 W.append(("P10", "C03", I([["a", {"typ": "Optional[int]", "doc": "the a", "default": "```(None)```"}]], seqs=[["doc_rest", "class"], ["function", "doc_rest"]])))
+
+# ---- C04 witnesses (cell = [emitter index in checks/C04.EMITTERS, style])
+W.append(("P13", "C04", I([["m", {"typ": "Literal['x']", "doc": "the m", "default": "x"}]], cells=[[5, "rest"]])))
+W.append(("P13", "C04", I([["b", {"typ": "bool", "doc": "the b"}]], cells=[[5, "rest"]])))
+
+# ---- C06 witnesses
+W.append(("P5", "C06", I([["a", {"typ": "int", "doc": "the a"}]], doc="")))
+W.append(("P15", "C06", I([["d", {"typ": "Literal['x', 'yy']", "doc": "the d", "default": "x"}]])))
 
 
 def main():
